@@ -105,6 +105,13 @@ struct Ledger
 
     void add_sub(const std::string& s)
     {
+        // a library that runs away (a destructor loop over garbage counts, say) must end as a verdict, not as a trace
+        // that is too large to judge
+        if (sub.size() > (1u << 16))
+        {
+            fprintf(stderr, "VERIF-RUNAWAY: more than 64 kB of allocation/lifetime events inside one operation\n");
+            abort();
+        }
         if (!sub.empty()) sub += ',';
         sub += s;
     }
